@@ -15,7 +15,7 @@ RULE = ("pieces described abstractly as (bar plan, per-track note lists, trailin
         "over a fixed pool of pieces containing every shape class; each round trip tokenise->encode->decode->detokenise is "
         "compared with the description-derived expectation. non-trivial = >=2 notes or a rest crossing a bar line or a "
         "signature change or >=2 tracks")
-SCALE = ('pieces of 8-12 bars with up to three tracks of dozens of notes; pauses of 17/33/65/129/300 completely silent bars (4/4 and 3/8); every velocity 1..127 once under 13 bin counts from 1 to 128 (fused and unfused)')
+SCALE = ('pieces of 8-12 bars with up to three tracks of dozens of notes; pauses of 17/33/65/129/300 completely silent bars (4/4 and 3/8); every velocity 1..127 once under 13 bin counts from 1 to 128 (fused and unfused); bar-by-bar hand-over with one state dictionary incl. one rejected call; signatures written at a limit (1/4, 1/1, 18/16, 32/16, 2/1 ...); two notes at every pair of onsets of a 4/4 bar whose rests the step sizes can express')
 ASSUMPTIONS = ["signature labels are not compared (6/8 and 3/4 render alike), only bar lengths",
                "output channel numbers are not compared; track index is",
                "the velocity-bin value is looked up in the tokeniser's own table by the harness's linear search"]
